@@ -154,16 +154,23 @@ def run(ctx):
         rule="edge subsets enumerated exhaustively, only cyclic ones kept; non-trivial: all",
         exhaustive=True,
     )
+    n_hung = 0
     for n in (2, 3, 4):
         pairs = [(a, b) for a in range(n) for b in range(n) if a != b or ctx.thorough]
         maxe = len(pairs) if n < 4 else ctx.pick(4, 6)
         for k in range(1, maxe + 1):
             for edges in itertools.combinations(pairs, k):
-                if not has_cycle(n, edges):
+                if not has_cycle(n, edges) or n_hung >= 12:
                     continue
                 kind, val = graph_case(n, edges)
                 dom.case((n, edges), sample={"nodes": n, "edges": list(edges), "sorting": kind})
                 if kind == "hung":
+                    n_hung += 1
+                    if n_hung == 12:
+                        # every hanging case costs the full alarm: after a dozen reported hangs the rest of the enumeration is
+                        # skipped (the check has already failed); never happens on a tree where sorting terminates
+                        dom.exhaustive = False
+                        ctx.note("cyclic-digraphs: enumeration stopped after 12 graphs on which DiGraph.sorting hung (15 s each)")
                     ctx.fail("sorting-hangs-on-cycle", f"DiGraph.sorting does not terminate on the cyclic graph {edges}", {"nodes": n, "edges": list(edges)}, domain=dom)
                 elif kind == "returned":
                     ctx.fail("sorting-returns-on-cycle", f"DiGraph.sorting returned {val} for the cyclic graph {edges} instead of reporting an error", {"nodes": n, "edges": list(edges)}, domain=dom)
